@@ -171,6 +171,16 @@ func GenC07(seed, index uint64) *Workload {
 		for i := 0; i < nexpr; i++ {
 			w.Exprs = append(w.Exprs, specOf(mutateText(r.Fork(500+uint64(i)), GenExpr(r.Fork(600+uint64(i)), Bias{Enum: 5, Lits: 30, Fail: 0, Let: 10, Unsafe: 50}))))
 		}
+		if r.P(1, 2) {
+			// an escape sequence that fails half-way through being decoded, and
+			// texts whose escapes decode fine, for the other clients
+			bad := pick(r, []string{`"a\uD834\uZZZZ"`, `"\uD800\u12"`, `"x\uDBFF\uDFFG".y`, `"a\u12G4"`, `'a\`, `"\uD834\u0041"`})
+			w.Exprs = append(w.Exprs, ExprSpec{Text: bad, Tree: &Expr{K: KRaw, S: bad}})
+			for _, good := range []string{`"t\tb"`, `{"q\"t": "t\tb", "k": 'a\tb'}`, `"\u00e9" || 'x\'y'`} {
+				w.Exprs = append(w.Exprs, ExprSpec{Text: good, Tree: &Expr{K: KRaw, S: good}})
+			}
+			nexpr = len(w.Exprs)
+		}
 		ntasks = 2 + r.Intn(3)
 	}
 	deep := !bigRun && !famRun && !badRun && r.P(1, 60)
